@@ -116,22 +116,31 @@ func (c *hbConn) Write(b []byte) (n int, err error) {
 }
 
 func (c *hbConn) Read(b []byte) (int, error) {
+	var readBytes errBytes
+
 	select {
+	case readBytes = <-c.recvCh:
 	case <-c.closed:
-		return 0, net.ErrClosed
-	case readBytes := <-c.recvCh:
-		if readBytes.err != nil {
-			return 0, readBytes.err
+		// select picks at random among ready cases, so messages that were
+		// queued before the close must be handed out before it is reported.
+		select {
+		case readBytes = <-c.recvCh:
+		default:
+			return 0, net.ErrClosed
 		}
-
-		if len(b) < len(readBytes.b) {
-			return 0, ErrInsufficientBuffer
-		}
-
-		n := copy(b, readBytes.b)
-
-		return n, nil
 	}
+
+	if readBytes.err != nil {
+		return 0, readBytes.err
+	}
+
+	if len(b) < len(readBytes.b) {
+		return 0, ErrInsufficientBuffer
+	}
+
+	n := copy(b, readBytes.b)
+
+	return n, nil
 }
 
 func (c *hbConn) BufferedAmount() uint64 {
